@@ -33,4 +33,30 @@ def step (limit : Nat) (w : WQ) : Op → WQ
 
 def run (limit : Nat) (w : WQ) (ops : List Op) : WQ := ops.foldl (step limit) w
 
+/-! ### the hand-over of a launched task from the intake thread to the watcher -/
+
+/-- `_launch_task` attaches the process handle to the task and queues the task for the watcher; the watcher thread may make a
+    pass (`watch`) at any moment -/
+inductive LaunchEv where
+  | attach | queue | watch
+deriving DecidableEq, Repr
+
+structure LaunchSt where
+  attached : Bool := false
+  queued   : Bool := false
+  dropped  : Bool := false     -- the watcher took the task for one the cancel path has finalised and forgot it for good
+deriving DecidableEq, Repr
+
+/-- `_check_running`: a watched task without `'proc'` is skipped and leaves the watch list -/
+def launchStep (s : LaunchSt) : LaunchEv → LaunchSt
+  | .attach => { s with attached := true }
+  | .queue  => { s with queued := true }
+  | .watch  => if s.queued && !s.attached then { s with dropped := true } else s
+
+def launchOrder (attachFirst : Bool) : List LaunchEv := if attachFirst then [.attach, .queue] else [.queue, .attach]
+
+def withWatchAt (l : List LaunchEv) (i : Nat) : List LaunchEv := l.take i ++ [.watch] ++ l.drop i
+
+def launchRun (evs : List LaunchEv) : LaunchSt := evs.foldl launchStep {}
+
 end RPVerif.WatchQueue
